@@ -28,8 +28,8 @@ ASSUMPTIONS = [
     "heterogeneity function h(point, u, params) = a + b.z + c*kappa; it replaces the parameter inside the equation only",
 ]
 TIMEOUT = {"quick": 1800, "thorough": 5400}
-MIN_COUNTERS = {"quick": {"terms_compared": 200, "grad_comparisons": 40, "hetero_cases": 25, "system_cases": 8, "hyper_cases": 8},
-                "thorough": {"terms_compared": 3000, "grad_comparisons": 500, "hetero_cases": 300, "system_cases": 100, "hyper_cases": 80}}
+MIN_COUNTERS = {"quick": {"terms_compared": 200, "grad_comparisons": 40, "hetero_cases": 25, "system_cases": 8, "hyper_cases": 8, "neumann_boundary_terms_with_parameter_batch": 8},
+                "thorough": {"terms_compared": 3000, "grad_comparisons": 500, "hetero_cases": 300, "system_cases": 100, "hyper_cases": 80, "neumann_boundary_terms_with_parameter_batch": 40}}
 KEYS = ["theta", "phi", "kappa"]
 EQ0 = {"theta": 0.8, "phi": 0.3, "kappa": -0.6}
 
@@ -49,6 +49,17 @@ def gen_cases(tier, seed):
                           batched=subsets[k % len(subsets)], parts=parts, B=int(rng.integers(1, 7)),
                           n_out=int(rng.integers(1, 3)), ncomp=int(rng.integers(1, 3)),
                           observed=bool(rng.integers(3) == 0), seed=seed * 100000 + k, cost=2.0))
+        if "boundary" in parts and (k // 3) % 2 == 0:
+            # the Neumann twin of the boundary term: the normal derivative of sample i uses row i of the batch
+            cases[-1]["bc"] = "neumann"
+    # forced, not left to luck: Neumann boundary terms of both PDE kinds in 1-D and 2-D, several samples, and the key
+    # the network itself reads ("phi", through its input transform) in the batch
+    for k in range(4 if q else 40):
+        kind = ["statio", "nonstatio"][k % 2]
+        cases.append(dict(mode="batch", kind=kind, d=1 + (k // 2) % 2, batched=[["phi"], ["theta", "phi"], ["phi", "kappa"]][k % 3],
+                          parts=["boundary"] + (["ic"] if kind == "nonstatio" and k % 4 == 3 else []), B=int(rng.integers(3, 7)),
+                          n_out=1, ncomp=int(rng.integers(1, 3)), observed=False, bc="neumann",
+                          seed=seed * 100000 + 40000 + k, cost=2.0))
     hmaps = ["none", "theta", "all", "missing", "none_entries"]
     for k in range(30 if q else 400):
         kind = kinds[k % 3]
@@ -83,6 +94,10 @@ class Problem:
         self.eqt = {"ode": "ODE", "statio": "statio_PDE", "nonstatio": "nonstatio_PDE"}[kind]
         if "norm" in parts:
             case = dict(case, n_out=1)  # the normalisation term is defined for scalar u
+            self.case = case
+        self.bc = case.get("bc", "dirichlet")
+        if self.bc == "neumann" and "boundary" in parts:
+            case = dict(case, n_out=1)  # the normal derivative is taken of a scalar u
             self.case = case
         self.net = nets.Net(fields.TrigField(case["seed"], self.D, case["n_out"]), self.eqt, reads=reads)
         self.spec = eqs.ResidSpec(case["seed"], case["ncomp"], case["n_out"], self.D)
@@ -123,7 +138,7 @@ class Problem:
                   observations=self.w["obs"])
         if "boundary" in parts:
             kw["omega_boundary_fun"] = (lambda dx: self.fb) if kind == "statio" else (lambda t, dx: self.fb)
-            kw["omega_boundary_condition"] = "dirichlet"
+            kw["omega_boundary_condition"] = self.bc
         if "norm" in parts:
             kw["norm_samples"] = jnp.asarray(self.norm_samples)
             kw["norm_int_length"] = self.V
@@ -214,6 +229,14 @@ class Problem:
         if "boundary" in self.parts:
             tot = 0.0
             for f in range(self.border.shape[-1]):
+                if self.bc == "neumann":
+                    # derivative of u along the outward normal of facet f (xmin, xmax, ymin, ymax), row i of the
+                    # parameters in the network of row i
+                    ax = f // 2 + (1 if kind == "nonstatio" else 0)
+                    sgn = [-1.0, 1.0][f % 2]
+                    tot += float(np.mean([self.w["boundary"] * np.sum(
+                        (sgn * net.grad(self.border[i, :, f], eq_rows[i])[:, ax] - self.fb) ** 2) for i in range(B)]))
+                    continue
                 tot += float(np.mean([self.w["boundary"] * np.sum((net.val(self.border[i, :, f], eq_rows[i]) - self.fb) ** 2)
                                       for i in range(B)]))
             out["boundary_loss"] = tot
@@ -250,6 +273,8 @@ def run_case(case, rec):
     if case["mode"] == "batch":
         parts = list(case["parts"])
         pr = Problem(case, rng, parts)
+        if pr.bc == "neumann" and "boundary" in parts:
+            rec.count("neumann_boundary_terms_with_parameter_batch")
         pr.make_data(B)
         loss = guard.call(pr.loss)
         params = pr.params
